@@ -32,6 +32,8 @@ C13_REQS = [
         {'id': 'e-lower', 'what': 'e > 2^(le-1) gates acceptance', 'gate_callee': ['PartialOrd'], 'cover': ['self.e', 'a:le'], 'pure': ['self.e']},
         {'id': 'e-range', 'what': 'e is compared with both ends of its range (2^(le-1) < e < 2^le), as in the single-attribute verifier', 'gate_callee': ['PartialOrd'],
          'cover': ['self.e', 'a:le'], 'pure': ['self.e'], 'min_gates': 2},
+        {'id': 'attribute-count', 'what': 'the number of attributes is compared for equality with the number of bases the signature was issued over (a^0 = 1: otherwise a signature on '
+                                          '[m, 0] also verifies for [m] and for [m, 0, 0])', 'gate_op': ['Eq', 'Ne'], 'cover': ['len(messages)', 'len(a_bases)']},
         {'id': 'attribute-range', 'what': 'every attribute is compared with 2^lm before acceptance',
          'gate_callee': ['PartialOrd', 'Ord::cmp', 'Iterator::any', 'Iterator::all', 'significant_bits'], 'gate_op': ['Lt', 'Le', 'Gt', 'Ge'],
          'quantifier': 'forall', 'cover': ['messages', 'a:lm'], 'pure': ['messages']},
